@@ -17,8 +17,10 @@ RULE = (
     "(x K keys per cell), each cell with a generated key (random, 1, n-1), message (0..200 bytes) and nonce: library signatures from "
     "sign(k=), sign(entropy=), sign_digest, sign_deterministic, sign_digest_deterministic are decoded by an independent decoder and "
     "must verify in the library (verify, verify_digest) and in libcrypto (ECDSA_do_verify on the digest under the public point the "
-    "library exports; DER through d2i_ECDSA_SIG with OpenSSL's re-encoding test); ECDSA_do_sign signatures (as produced and in low-s "
-    "form), encoded by independent encoders / i2d_ECDSA_SIG, must verify in the library; sign_deterministic r,s and "
+    "library exports; DER through d2i_ECDSA_SIG with OpenSSL's re-encoding test); libcrypto signatures (ECDSA_do_sign_ex with the nonce "
+    "fixed by the case so that replay is exact; as produced and with s replaced by n-s), encoded by independent encoders / i2d_ECDSA_SIG, "
+    "must verify in the library (verify and verify_digest); the key objects carry a default hash different from the one in use, and the "
+    "default-hash path is checked separately; sign_deterministic r,s and "
     "rfc6979.generate_k (retry_gen 0..2, optional extra entropy) must equal vlib/rfc6979ref (written from RFC 6979 2.3/3.2/3.6, "
     "anchored on the A.1 example and 11 A.2 vectors; k*G from libcrypto); a second key (random, n-x, x+1) must reject; a digest longer "
     "than the curve with allow_truncate=False must give BadDigestError; a seeded sample of single-bit flips of message and signature "
